@@ -293,9 +293,13 @@ def c14Run (c : Cfg) (tr : Trace) (anns : List CbEv) (world : List Dial) : List 
     let _ := appClosed
     -- "a run that simply ended through the application's own close()": once another thread has called close(), nothing
     -- that happens on the way out is an error of the run (the internal-error case has its own clause above)
+    --   (a close() that came before the connection was dialled closes nothing; an error that shows at the very tick of the
+    --    close() may have been under way already: only a report at a LATER tick is judged)
+    let lastDial := match ds.getLast? with | some (p, _, _) => p | none => 0
     let vOwn := match tr.findIdx? (fun te => te.2 = .closeCall) with
       | some i =>
-        if (tr.drop (i + 1)).any (fun te => isErrorReport te.2 &&
+        let tc := match tr[i]? with | some te => te.1 | none => 0
+        if decide (lastDial < i) && (tr.drop (i + 1)).any (fun te => decide (tc < te.1) && isErrorReport te.2 &&
               (match te.2 with | .cb .onError [.exn .attrError] => false | _ => true)) && !onErrFails
         then ["return-value:error-reported-after-own-close"] else []
       | none => []
